@@ -270,58 +270,7 @@ theorem valuesOf_parseQuery_Encode (m : AR.Values) (h : DistinctKeys m.entries) 
     valuesOf k (parseQuery m.Encode) = m.get k := by
   rw [encode_eq, parseQuery_joinAmp, valuesOf_sortEntries, valuesOf_flatten_get k _ h]
 
--- ---------------------------------------------------------------- Values.Add, url.ParseQuery, the merge loop
-
-theorem get_addEntry (es : Entries) (k v k' : Bytes) :
-    AR.Values.get ⟨AR.Values.addEntry es k v⟩ k' = AR.Values.get ⟨es⟩ k' ++ (if k == k' then [v] else []) := by
-  induction es with
-  | nil =>
-    by_cases h : k = k'
-    · subst h; simp [AR.Values.addEntry, get_cons, AR.Values.get]
-    · have : (k == k') = false := by simp [h]
-      simp [AR.Values.addEntry, get_cons, AR.Values.get, this]
-  | cons e es ih =>
-    by_cases he : e.1 = k
-    · subst he
-      by_cases hk : e.1 = k'
-      · subst hk; simp [AR.Values.addEntry, get_cons]
-      · have : (e.1 == k') = false := by simp [hk]
-        simp [AR.Values.addEntry, get_cons, this]
-    · have he' : (e.1 == k) = false := by simp [he]
-      by_cases hk : e.1 = k'
-      · subst hk
-        have : (k == e.1) = false := by simp; exact fun h => he h.symm
-        simp [AR.Values.addEntry, get_cons, he', this]
-      · have : (e.1 == k') = false := by simp [hk]
-        simp [AR.Values.addEntry, get_cons, he', this, ih]
-
-theorem keys_addEntry (es : Entries) (k v : Bytes) :
-    (AR.Values.addEntry es k v).map (·.1) = if k ∈ es.map (·.1) then es.map (·.1) else es.map (·.1) ++ [k] := by
-  induction es with
-  | nil => simp [AR.Values.addEntry]
-  | cons e es ih =>
-    by_cases he : e.1 = k
-    · subst he; simp [AR.Values.addEntry]
-    · have he' : (e.1 == k) = false := by simp [he]
-      have hne : ¬ k = e.1 := fun h => he h.symm
-      simp only [AR.Values.addEntry, he', Bool.false_eq_true, if_false, List.map_cons, ih, List.mem_cons, hne, false_or]
-      split <;> simp
-
-theorem distinct_addEntry (es : Entries) (k v : Bytes) (h : DistinctKeys es) : DistinctKeys (AR.Values.addEntry es k v) := by
-  unfold DistinctKeys at *
-  rw [keys_addEntry]
-  split
-  · exact h
-  · rename_i hk
-    rw [List.nodup_append]
-    refine ⟨h, by simp, ?_⟩
-    intro a ha b hb
-    simp only [List.mem_singleton] at hb
-    subst hb
-    exact fun heq => hk (heq ▸ ha)
-
-theorem get_Add (m : AR.Values) (k v k' : Bytes) : (m.Add k v).get k' = m.get k' ++ (if k == k' then [v] else []) :=
-  get_addEntry m.entries k v k'
+-- ---------------------------------------------------------------- the model's copies of the primitives
 
 -- the model's own copies of the primitives agree with the specification's
 
@@ -355,88 +304,101 @@ theorem unescapeS_eq (st : AR.Pct) (s : Bytes) :
 
 theorem unescape_true_eq (s : Bytes) : AR.unescape true s = formDecode s := unescapeS_eq .none s
 
-/-- one setting of `url.ParseQuery` is one parameter of the specification's decoder -/
-theorem addSetting_eq (m : AR.Values) (seg : Bytes) :
-    AR.addSetting m seg = match parsePair seg with | some p => m.Add p.1 p.2 | none => m := by
-  unfold AR.addSetting parsePair
-  rw [cut_eq, unescape_true_eq, unescape_true_eq]
-  by_cases h1 : seg.contains 0x3B = true
-  · simp only [h1, if_true, Bool.or_true]
-  · by_cases h2 : seg.isEmpty = true
-    · simp only [h2, if_true, Bool.true_or]; split <;> rfl
-    · have h1' : seg.contains 0x3B = false := by simpa using h1
-      have h2' : seg.isEmpty = false := by simpa using h2
-      simp only [h1', h2', Bool.false_eq_true, if_false, Bool.or_self]
-      cases formDecode (cut 61 seg).1 <;> cases formDecode ((cut 61 seg).2.getD []) <;> rfl
+-- ---------------------------------------------------------------- appending to a query string
 
-theorem foldl_addSetting (segs : List Bytes) (m : AR.Values) (hm : DistinctKeys m.entries) (k : Bytes) :
-    (segs.foldl AR.addSetting m).get k = m.get k ++ valuesOf k (segs.filterMap parsePair)
-    ∧ DistinctKeys (segs.foldl AR.addSetting m).entries := by
-  induction segs generalizing m with
-  | nil => simp [valuesOf, hm]
-  | cons seg segs ih =>
-    simp only [List.foldl_cons, List.filterMap_cons]
-    rw [addSetting_eq]
-    cases hp : parsePair seg with
-    | none => exact ih m hm
-    | some p =>
-      simp only
-      have hd : DistinctKeys (m.Add p.1 p.2).entries := distinct_addEntry _ _ _ hm
-      obtain ⟨h1, h2⟩ := ih (m.Add p.1 p.2) hd
-      refine ⟨?_, h2⟩
-      rw [h1, get_Add]
-      simp only [valuesOf, List.filter_cons]
-      by_cases hk : p.1 == k <;> simp [hk]
+/-- splitting distributes over a separator in the middle, whatever stands in front of it -/
+theorem splitOn_append_any (sep : UInt8) (a r : Bytes) : splitOn sep (a ++ sep :: r) = splitOn sep a ++ splitOn sep r := by
+  induction a with
+  | nil => simp [splitOn]
+  | cons x a ih =>
+    by_cases hx : x = sep
+    · subst hx; simp [splitOn, ih]
+    · simp only [List.cons_append, splitOn, ih]
+      cases hs : splitOn sep a with
+      | nil => exact absurd hs (splitOn_ne_nil sep a)
+      | cons s ss => simp [hx]
 
-/-- **`uri.Query()` of the model holds, under every key, what the specification's decoder reads from the raw query** -/
-theorem get_parseQuery (q k : Bytes) :
-    (AR.parseQuery q).get k = valuesOf k (parseQuery q) ∧ DistinctKeys (AR.parseQuery q).entries := by
-  have := foldl_addSetting (AR.splitOn 0x26 q) {} (by simp [DistinctKeys]) k
-  unfold AR.parseQuery parseQuery
-  rw [← splitOn_eq]
-  simpa [AR.Values.get] using this
+theorem parseQuery_nil : parseQuery [] = [] := by
+  simp [parseQuery, splitOn, parsePair]
 
-theorem foldl_enumFrom {α β : Type} (f : β → α → β) (l : List α) (n : Int) (init : β) :
-    (Go.enumFrom n l).foldl (fun acc kv => f acc kv.2) init = l.foldl f init := by
-  induction l generalizing n init with
-  | nil => rfl
-  | cons a l ih => simp [Go.enumFrom, ih]
+/-- **a query string followed by `&` and more settings decodes to its own parameters followed by the new ones**
+    (every existing query text, including settings the decoder rejects) -/
+theorem parseQuery_append_amp (a e : Bytes) : parseQuery (a ++ 0x26 :: e) = parseQuery a ++ parseQuery e := by
+  simp [parseQuery, splitOn_append_any]
 
-theorem foldl_Add (vs : List Bytes) (m : AR.Values) (hm : DistinctKeys m.entries) (k k' : Bytes) :
-    (vs.foldl (fun q v => q.Add k v) m).get k' = m.get k' ++ (if k == k' then vs else [])
-    ∧ DistinctKeys (vs.foldl (fun q v => q.Add k v) m).entries := by
-  induction vs generalizing m with
-  | nil => simp [hm]
-  | cons v vs ih =>
-    simp only [List.foldl_cons]
-    obtain ⟨h1, h2⟩ := ih (m.Add k v) (distinct_addEntry _ _ _ hm)
-    refine ⟨?_, h2⟩
-    rw [h1, get_Add]
-    by_cases hk : k == k' <;> simp [hk]
+/-- how `mergeQueryParams` joins the redirect URI's query text `a` and the encoded response `e` -/
+def joinQuery (a e : Bytes) : Bytes := if a = [] then e else if e = [] then a else a ++ 0x26 :: e
 
-/-- the double loop of mergeQueryParams as the translator renders it -/
-def mergeLoop (params queries : AR.Values) : AR.Values :=
-  Go.foldRange params queries (fun queries param values => Go.foldRange values queries (fun queries _ value => queries.Add param value))
+theorem parseQuery_joinQuery (a e : Bytes) : parseQuery (joinQuery a e) = parseQuery a ++ parseQuery e := by
+  unfold joinQuery
+  split
+  · rename_i h; subst h; simp [parseQuery_nil]
+  · split
+    · rename_i h; subst h; simp [parseQuery_nil]
+    · exact parseQuery_append_amp a e
 
-theorem mergeLoop_get_aux (es : Entries) (m : AR.Values) (hm : DistinctKeys m.entries) (k' : Bytes) :
-    (es.foldl (fun acc kv => (Go.enumFrom 0 kv.2).foldl (fun acc2 iv => acc2.Add kv.1 iv.2) acc) m).get k' = m.get k' ++ valuesOf k' (flatten es)
-    ∧ DistinctKeys (es.foldl (fun acc kv => (Go.enumFrom 0 kv.2).foldl (fun acc2 iv => acc2.Add kv.1 iv.2) acc) m).entries := by
-  induction es generalizing m with
-  | nil => simp [flatten, valuesOf, hm]
-  | cons e es ih =>
-    simp only [List.foldl_cons]
-    rw [foldl_enumFrom (fun (q : AR.Values) v => q.Add e.1 v)]
-    obtain ⟨h1, h2⟩ := foldl_Add e.2 m hm e.1 k'
-    obtain ⟨h3, h4⟩ := ih _ h2
-    refine ⟨?_, h4⟩
-    rw [h3, h1, valuesOf_flatten_cons, List.append_assoc]
+theorem unread_nil : unread [] = [] := by simp [unread, splitOn]
 
-/-- **after the merge loop every key holds its previous values followed by the response's** -/
-theorem mergeLoop_get (params queries : AR.Values) (hq : DistinctKeys queries.entries) (hp : DistinctKeys params.entries) (k : Bytes) :
-    (mergeLoop params queries).get k = queries.get k ++ params.get k ∧ DistinctKeys (mergeLoop params queries).entries := by
-  have := mergeLoop_get_aux params.entries queries hq k
-  rw [valuesOf_flatten_get k _ hp] at this
-  exact this
+theorem unread_append_amp (a e : Bytes) : unread (a ++ 0x26 :: e) = unread a ++ unread e := by
+  simp [unread, splitOn_append_any]
+
+theorem unread_joinQuery (a e : Bytes) : unread (joinQuery a e) = unread a ++ unread e := by
+  unfold joinQuery
+  split
+  · rename_i h; subst h; simp [unread_nil]
+  · split
+    · rename_i h; subst h; simp [unread_nil]
+    · exact unread_append_amp a e
+
+/-- every setting `Values.Encode` writes is read as a parameter -/
+theorem unread_joinAmp (ps : List (Bytes × Bytes)) : unread (AR.Values.joinAmp (ps.map encPair)) = [] := by
+  induction ps with
+  | nil => simp [AR.Values.joinAmp, unread_nil]
+  | cons p ps ih =>
+    cases ps with
+    | nil =>
+      simp only [List.map_cons, List.map_nil, AR.Values.joinAmp, unread]
+      rw [splitOn_nosep _ _ (fun b hb => (encPair_nodelim p b hb).1)]
+      simp [parsePair_encPair]
+    | cons q qs =>
+      have h : AR.Values.joinAmp ((p :: q :: qs).map encPair) = encPair p ++ 0x26 :: AR.Values.joinAmp ((q :: qs).map encPair) := by
+        simp [AR.Values.joinAmp]
+      rw [h, unread_append_amp, ih]
+      simp only [unread, List.append_nil]
+      rw [splitOn_nosep _ _ (fun b hb => (encPair_nodelim p b hb).1)]
+      simp [parsePair_encPair]
+
+theorem cut_fst_nosep (sep : UInt8) (x : Bytes) : ∀ b ∈ (cut sep x).1, b ≠ sep := by
+  induction x with
+  | nil => simp [cut]
+  | cons c x ih =>
+    by_cases hc : c = sep
+    · simp [cut, hc]
+    · have hc' : (c == sep) = false := by simpa using hc
+      intro b hb
+      simp only [cut, hc', Bool.false_eq_true, if_false, List.mem_cons] at hb
+      rcases hb with hb | hb
+      · subst hb; exact hc
+      · exact ih b hb
+
+theorem cut_snd_mem (sep : UInt8) (x : Bytes) : ∀ b ∈ (cut sep x).2.getD [], b ∈ x := by
+  induction x with
+  | nil => simp [cut]
+  | cons c x ih =>
+    by_cases hc : c = sep
+    · intro b hb
+      have hb' : b ∈ x := by simpa [cut, hc] using hb
+      exact List.mem_cons_of_mem _ hb'
+    · have hc' : (c == sep) = false := by simpa using hc
+      intro b hb
+      simp only [cut, hc', Bool.false_eq_true, if_false] at hb
+      exact List.mem_cons_of_mem _ (ih b hb)
+
+/-- the query of a Location value / of a URI contains no `#` -/
+theorem locationQuery_nohash (loc : Bytes) : ∀ b ∈ locationQuery loc, b ≠ 0x23 := by
+  intro b hb
+  unfold locationQuery at hb
+  exact cut_fst_nosep 0x23 loc b (cut_snd_mem 0x3F _ b hb)
 
 -- ---------------------------------------------------------------- the Location value
 
@@ -510,63 +472,162 @@ theorem Encode_nohash (m : AR.Values) : ∀ b ∈ m.Encode, b ≠ 0x23 := by
 
 -- ---------------------------------------------------------------- query mode
 
+theorem coe_empty : ((↑("" : String)) : AR.Bytes) = [] := by decide
+theorem coe_amp : ((↑("&" : String)) : AR.Bytes) = [0x26] := by decide
+
+/-- the regenerated `mergeQueryParams`: the redirect URI's query text is kept as it is, the encoded response follows it -/
 theorem mergeQueryParams_eq (now : Int) (u : AR.URL) (params : AR.Values) :
-    GenWire.mergeQueryParams now u params = ({ u with RawQuery := (mergeLoop params u.Query).Encode } : AR.URL).String := rfl
+    GenWire.mergeQueryParams now u params = ({ u with RawQuery := joinQuery u.RawQuery params.Encode } : AR.URL).String := by
+  unfold GenWire.mergeQueryParams joinQuery
+  simp only [coe_empty, coe_amp, beq_iff_eq, bne_iff_ne, ne_eq, ite_not]
+  by_cases h1 : u.RawQuery = []
+  · simp [h1]
+  · by_cases h2 : params.Encode = []
+    · simp [h1, h2]
+    · simp only [h1, h2, if_false]
+      show ({ u with RawQuery := (u.RawQuery ++ [0x26]) ++ params.Encode } : AR.URL).String = _
+      simp
+
+theorem joinQuery_nohash (a e : Bytes) (ha : ∀ b ∈ a, b ≠ 0x23) (he : ∀ b ∈ e, b ≠ 0x23) : ∀ b ∈ joinQuery a e, b ≠ 0x23 := by
+  intro b hb
+  unfold joinQuery at hb
+  split at hb
+  · exact he b hb
+  · split at hb
+    · exact ha b hb
+    · simp only [List.mem_append, List.mem_cons] at hb
+      rcases hb with hb | hb | hb
+      · exact ha b hb
+      · subst hb; decide
+      · exact he b hb
 
 /-- **C11, query mode, all inputs.**  For every parsed redirect URI, every response (any keys, any byte strings as
     values) and every name `k`: decoding the query of the Location value that the regenerated `mergeQueryParams`
     builds yields the values the redirect URI's own query had under `k`, followed by the response's values —
     response parameters arrive unchanged and pre-existing query parameters are preserved. -/
 theorem c11_query_roundtrip (now : Int) (u : AR.URL) (params : AR.Values) (hb : BaseOK u)
-    (hp : DistinctKeys params.entries) (k : Bytes) :
+    (hq : ∀ b ∈ u.RawQuery, b ≠ 0x23) (hp : DistinctKeys params.entries) (k : Bytes) :
     valuesOf k (parseQuery (locationQuery (GenWire.mergeQueryParams now u params)))
       = valuesOf k (parseQuery u.RawQuery) ++ params.get k := by
-  have key := locationQuery_String ({ u with RawQuery := (mergeLoop params u.Query).Encode } : AR.URL) hb (Encode_nohash _)
+  have key := locationQuery_String ({ u with RawQuery := joinQuery u.RawQuery params.Encode } : AR.URL) hb
+    (joinQuery_nohash _ _ hq (Encode_nohash _))
   rw [mergeQueryParams_eq, key]
-  obtain ⟨hq1, hq2⟩ := get_parseQuery u.RawQuery k
-  obtain ⟨hm1, hm2⟩ := mergeLoop_get params u.Query hq2 hp k
-  show valuesOf k (parseQuery (mergeLoop params u.Query).Encode) = _
-  rw [valuesOf_parseQuery_Encode _ hm2, hm1]
-  show (AR.parseQuery u.RawQuery).get k ++ _ = _
-  rw [hq1]
+  show valuesOf k (parseQuery (joinQuery u.RawQuery params.Encode)) = _
+  rw [parseQuery_joinQuery, valuesOf_append, valuesOf_parseQuery_Encode _ hp]
+
+/-- **the redirect URI's own query text is still there, byte for byte**: the query of the Location value starts
+    with it (also the parts of it no decoder accepts) -/
+theorem c11_query_text_kept (now : Int) (u : AR.URL) (params : AR.Values) (hb : BaseOK u) (hq : ∀ b ∈ u.RawQuery, b ≠ 0x23) :
+    ∃ rest, locationQuery (GenWire.mergeQueryParams now u params) = u.RawQuery ++ rest := by
+  have key := locationQuery_String ({ u with RawQuery := joinQuery u.RawQuery params.Encode } : AR.URL) hb
+    (joinQuery_nohash _ _ hq (Encode_nohash _))
+  rw [mergeQueryParams_eq, key]
+  show ∃ rest, joinQuery u.RawQuery params.Encode = _
+  unfold joinQuery
+  split
+  · rename_i h; exact ⟨params.Encode, by simp [h]⟩
+  · split
+    · exact ⟨[], by simp⟩
+    · exact ⟨0x26 :: params.Encode, rfl⟩
+
+/-- … and the settings of it that `parseQuery` does not read (`a;b=1`, `%zz=1`) are exactly those the Location's query has -/
+theorem c11_query_unread_kept (now : Int) (u : AR.URL) (params : AR.Values) (hb : BaseOK u) (hq : ∀ b ∈ u.RawQuery, b ≠ 0x23) :
+    unread (locationQuery (GenWire.mergeQueryParams now u params)) = unread u.RawQuery := by
+  have key := locationQuery_String ({ u with RawQuery := joinQuery u.RawQuery params.Encode } : AR.URL) hb
+    (joinQuery_nohash _ _ hq (Encode_nohash _))
+  rw [mergeQueryParams_eq, key]
+  show unread (joinQuery u.RawQuery params.Encode) = _
+  rw [unread_joinQuery, encode_eq, unread_joinAmp, List.append_nil]
 
 /-- the redirect target in front of the query is untouched -/
-theorem c11_query_base (now : Int) (u : AR.URL) (params : AR.Values) (hb : BaseOK u) :
+theorem c11_query_base (now : Int) (u : AR.URL) (params : AR.Values) (hb : BaseOK u) (hq : ∀ b ∈ u.RawQuery, b ≠ 0x23) :
     locationBase (GenWire.mergeQueryParams now u params) = u.base := by
   rw [mergeQueryParams_eq]
-  exact locationBase_String ({ u with RawQuery := (mergeLoop params u.Query).Encode } : AR.URL) hb (Encode_nohash _)
+  exact locationBase_String ({ u with RawQuery := joinQuery u.RawQuery params.Encode } : AR.URL) hb
+    (joinQuery_nohash _ _ hq (Encode_nohash _))
 
 -- ---------------------------------------------------------------- fragment mode
 
-theorem setFragment_eq (now : Int) (u : AR.URL) (params : AR.Values) :
-    GenWire.setFragment now u params = ({ u with Fragment := params.Encode } : AR.URL).String := rfl
+/-- `s` is a run of complete escape units for `unescape(…, encodeFragment)`: in front of any text it decodes to
+    some bytes `d` (not none when `s` is not empty) and leaves the rest to be decoded on its own -/
+def Unit (s : Bytes) : Prop :=
+  ∃ d, (s ≠ [] → d ≠ []) ∧ ∀ r, AR.unescape false (s ++ r) = (AR.unescape false r).map (d ++ ·)
 
-/-- **what fragment mode puts on the wire, all inputs**: the response is form-encoded (`Values.Encode`) and then
-    escaped a SECOND time by `URL.String()` (`escape(…, encodeFragment)`); the redirect URI's own query stays. -/
-theorem c11_fragment_wire (now : Int) (u : AR.URL) (params : AR.Values) (hb : BaseOK u)
-    (hq : ∀ b ∈ u.RawQuery, b ≠ 0x23) (hrf : u.RawFragment = []) (hne : params.Encode ≠ []) :
-    locationFragment (GenWire.setFragment now u params) = some (AR.escapeFragment params.Encode)
-    ∧ locationQuery (GenWire.setFragment now u params) = u.RawQuery
-    ∧ locationBase (GenWire.setFragment now u params) = u.base := by
-  rw [setFragment_eq]
-  refine ⟨?_, locationQuery_String ({ u with Fragment := params.Encode } : AR.URL) hb hq,
-    locationBase_String ({ u with Fragment := params.Encode } : AR.URL) hb hq⟩
-  rw [locationFragment_String ({ u with Fragment := params.Encode } : AR.URL) hb hq]
-  have : (params.Encode).isEmpty = false := by
-    cases h : params.Encode with
-    | nil => exact absurd h hne
-    | cons _ _ => rfl
-  simp [this, AR.URL.EscapedFragment, hrf]
+theorem Unit.nil : Unit [] := ⟨[], by simp, fun r => by simp⟩
 
-theorem escapeFragment_id (x : Bytes) (h : ∀ b ∈ x, AR.shouldEscapeFragment b = false) : AR.escapeFragment x = x := by
-  induction x with
-  | nil => rfl
-  | cons c x ih =>
-    have hc := h c (by simp)
-    have ih' := ih (fun b hb => h b (by simp [hb]))
-    simp only [AR.escapeFragment, List.flatMap_cons] at ih' ⊢
-    rw [ih']
-    simp [AR.fragmentEscapeByte, hc]
+theorem Unit.append {a b : Bytes} (ha : Unit a) (hb : Unit b) : Unit (a ++ b) := by
+  obtain ⟨da, hna, ha⟩ := ha
+  obtain ⟨db, hnb, hb⟩ := hb
+  refine ⟨da ++ db, ?_, fun r => ?_⟩
+  · intro h
+    by_cases h1 : a = []
+    · have : b ≠ [] := by intro h2; exact h (by simp [h1, h2])
+      simp [hnb this]
+    · simp [hna h1]
+  · rw [List.append_assoc, ha, hb]
+    cases AR.unescape false r <;> simp
+
+/-- one output unit of an escaper: a byte other than `%`, or `%` and two hexadecimal digits -/
+def unitShape (e : Bytes) : Bool :=
+  match e with
+  | [b] => b != 0x25
+  | [p, a, b] => p == 0x25 && (hexVal a).isSome && (hexVal b).isSome
+  | _ => false
+
+theorem Unit.of_shape (e : Bytes) (h : unitShape e = true) : Unit e := by
+  match e, h with
+  | [b], h =>
+    simp only [unitShape, bne_iff_ne, ne_eq] at h
+    refine ⟨[b], by simp, fun r => ?_⟩
+    have h25 : (b == 0x25) = false := by simpa using h
+    simp [AR.unescape, AR.unescapeS, h25]
+  | [p, a, b], h =>
+    simp only [unitShape, Bool.and_eq_true, beq_iff_eq] at h
+    obtain ⟨⟨hp, ha⟩, hb⟩ := h
+    subst hp
+    cases hxa : hexVal a with
+    | none => simp [hxa] at ha
+    | some x =>
+      cases hxb : hexVal b with
+      | none => simp [hxb] at hb
+      | some y =>
+        refine ⟨[UInt8.ofNat (x * 16 + y)], by simp, fun r => ?_⟩
+        simp [AR.unescape, AR.unescapeS, unhex_eq, hxa, hxb]
+
+set_option maxRecDepth 100000 in
+theorem queryEscapeByte_unit : ∀ n : Fin 256, (fun c => unitShape (AR.queryEscapeByte c)) (UInt8.ofNat n.val) = true := by decide
+
+theorem QueryEscape_unit (s : Bytes) : Unit (AR.QueryEscape s) := by
+  induction s with
+  | nil => exact Unit.nil
+  | cons c s ih =>
+    rw [QueryEscape_cons]
+    exact Unit.append (Unit.of_shape _ (byteAll (fun c => unitShape (AR.queryEscapeByte c)) queryEscapeByte_unit c)) ih
+
+theorem encPair_unit (p : Bytes × Bytes) : Unit (encPair p) := by
+  have h : encPair p = AR.QueryEscape p.1 ++ ([0x3D] ++ AR.QueryEscape p.2) := by simp [encPair]
+  rw [h]
+  exact Unit.append (QueryEscape_unit _) (Unit.append (Unit.of_shape [0x3D] (by decide)) (QueryEscape_unit _))
+
+theorem joinAmp_unit (ps : List (Bytes × Bytes)) : Unit (AR.Values.joinAmp (ps.map encPair)) := by
+  induction ps with
+  | nil => exact Unit.nil
+  | cons p ps ih =>
+    cases ps with
+    | nil => simpa [AR.Values.joinAmp] using encPair_unit p
+    | cons q qs =>
+      have h : AR.Values.joinAmp ((p :: q :: qs).map encPair) = encPair p ++ ([0x26] ++ AR.Values.joinAmp ((q :: qs).map encPair)) := by
+        simp [AR.Values.joinAmp]
+      rw [h]
+      exact Unit.append (encPair_unit p) (Unit.append (Unit.of_shape [0x26] (by decide)) ih)
+
+/-- **what `url.Values.Encode` writes is well-formed percent-encoding**: `unescape(…, encodeFragment)` (and
+    `url.PathUnescape`) accepts it, with a non-empty result unless it is empty -/
+theorem unescape_Encode (m : AR.Values) : ∃ d, AR.unescape false m.Encode = some d ∧ (m.Encode ≠ [] → d ≠ []) := by
+  obtain ⟨d, hne, hd⟩ := (encode_eq m ▸ joinAmp_unit _ : Unit m.Encode)
+  refine ⟨d, ?_, hne⟩
+  have := hd []
+  simpa [AR.unescape, AR.unescapeS] using this
 
 set_option maxRecDepth 100000 in
 theorem queryEscapeByte_frag : ∀ n : Fin 256,
@@ -609,20 +670,73 @@ theorem joinAmp_frag (ps : List (Bytes × Bytes)) :
       · subst hb; right; decide
       · exact ih b (by simpa [List.map_cons] using hb)
 
-/-- **C11, fragment mode, the part that holds**: when no parameter needs a percent escape (the encoded response
-    contains no `%`: keys and values of unreserved characters and spaces — codes, JWTs, plain states), the raw
-    fragment is the encoded response itself and decoding it once yields every parameter unchanged. -/
-theorem c11_fragment_roundtrip_partial (now : Int) (u : AR.URL) (params : AR.Values) (hb : BaseOK u)
-    (hq : ∀ b ∈ u.RawQuery, b ≠ 0x23) (hrf : u.RawFragment = []) (hne : params.Encode ≠ [])
-    (hp : DistinctKeys params.entries) (hpct : ∀ b ∈ params.Encode, b ≠ 0x25) :
+/-- … and only of bytes a raw fragment may contain (`validEncoded(…, encodeFragment)`) -/
+theorem validEncodedFragment_Encode (m : AR.Values) : AR.validEncodedFragment m.Encode = true := by
+  unfold AR.validEncodedFragment
+  rw [List.all_eq_true]
+  intro b hb
+  rw [encode_eq] at hb
+  rcases joinAmp_frag _ b hb with h | h
+  · subst h; decide
+  · simp [h]
+
+/-- the regenerated `setFragment`: the encoded response becomes the RAW fragment, `Fragment` its unescaped form -/
+theorem setFragment_eq (now : Int) (u : AR.URL) (params : AR.Values) :
+    GenWire.setFragment now u params
+      = ({ u with Fragment := (AR.PathUnescape params.Encode).1, RawFragment := params.Encode } : AR.URL).String := rfl
+
+/-- `URL.String()` then emits the raw fragment as it is: nothing is escaped a second time -/
+theorem escapedFragment_setFragment (u : AR.URL) (params : AR.Values) (hne : params.Encode ≠ []) :
+    ({ u with Fragment := (AR.PathUnescape params.Encode).1, RawFragment := params.Encode } : AR.URL).EscapedFragment = params.Encode
+    ∧ (AR.PathUnescape params.Encode).1 ≠ [] := by
+  obtain ⟨d, hd, hdne⟩ := unescape_Encode params
+  have hpu : (AR.PathUnescape params.Encode).1 = d := by simp [AR.PathUnescape, hd]
+  refine ⟨?_, by rw [hpu]; exact hdne hne⟩
+  have hemp : (params.Encode).isEmpty = false := by
+    cases h : params.Encode with
+    | nil => exact absurd h hne
+    | cons _ _ => rfl
+  simp [AR.URL.EscapedFragment, hpu, hd, hemp, validEncodedFragment_Encode]
+
+/-- **what fragment mode puts on the wire, all inputs**: the raw fragment of the Location value IS the form-encoded
+    response (`Values.Encode`), escaped once; the redirect URI's own query and target stay (a fragment the redirect
+    URI had is replaced). -/
+theorem c11_fragment_wire (now : Int) (u : AR.URL) (params : AR.Values) (hb : BaseOK u)
+    (hq : ∀ b ∈ u.RawQuery, b ≠ 0x23) :
+    locationFragment (GenWire.setFragment now u params) = (if params.Encode = [] then none else some params.Encode)
+    ∧ locationQuery (GenWire.setFragment now u params) = u.RawQuery
+    ∧ locationBase (GenWire.setFragment now u params) = u.base := by
+  rw [setFragment_eq]
+  refine ⟨?_, locationQuery_String ({ u with Fragment := (AR.PathUnescape params.Encode).1, RawFragment := params.Encode } : AR.URL) hb hq,
+    locationBase_String ({ u with Fragment := (AR.PathUnescape params.Encode).1, RawFragment := params.Encode } : AR.URL) hb hq⟩
+  rw [locationFragment_String ({ u with Fragment := (AR.PathUnescape params.Encode).1, RawFragment := params.Encode } : AR.URL) hb hq]
+  by_cases hne : params.Encode = []
+  · simp [hne, AR.PathUnescape, AR.unescape, AR.unescapeS]
+  · obtain ⟨h1, h2⟩ := escapedFragment_setFragment u params hne
+    have : ((AR.PathUnescape params.Encode).1).isEmpty = false := by
+      cases h : (AR.PathUnescape params.Encode).1 with
+      | nil => exact absurd h h2
+      | cons _ _ => rfl
+    simp only [this, Bool.not_false, if_true, hne, if_false, h1]
+
+/-- **C11, fragment mode, ALL byte strings**: whatever the response contains (`+ / = & % # ?`, spaces, quotes, any
+    bytes), the raw fragment a user agent sees is the encoded response, and decoding it ONCE yields every
+    parameter unchanged. -/
+theorem c11_fragment_roundtrip (now : Int) (u : AR.URL) (params : AR.Values) (hb : BaseOK u)
+    (hq : ∀ b ∈ u.RawQuery, b ≠ 0x23) (hne : params.Encode ≠ []) (hp : DistinctKeys params.entries) :
     ∃ f, locationFragment (GenWire.setFragment now u params) = some f ∧ ∀ k, valuesOf k (parseQuery f) = params.get k := by
   refine ⟨params.Encode, ?_, fun k => valuesOf_parseQuery_Encode params hp k⟩
-  rw [(c11_fragment_wire now u params hb hq hrf hne).1, escapeFragment_id]
-  intro b hb'
-  have h1 := hpct b hb'
-  rw [encode_eq] at hb'
-  rcases joinAmp_frag _ b hb' with h | h
-  · exact absurd h h1
-  · exact h
+  rw [(c11_fragment_wire now u params hb hq).1]
+  simp [hne]
+
+/-- a response without any parameter leaves no fragment -/
+theorem Encode_nil_flatten (m : AR.Values) (hd : DistinctKeys m.entries) (h : m.Encode = []) : flatten m.entries = [] := by
+  cases hf : flatten m.entries with
+  | nil => rfl
+  | cons p ps =>
+    exfalso
+    have h1 := valuesOf_parseQuery_Encode m hd p.1
+    rw [h, parseQuery_nil, ← valuesOf_flatten_get p.1 _ hd, hf] at h1
+    simp [valuesOf] at h1
 
 end C11
